@@ -156,7 +156,12 @@ func BuildSimple(dir string, r *kit.Repo) (string, error) {
 	if _, err := os.Stat(p); err == nil {
 		// a repository of the same name (another tenant) already has this file name:
 		// name the shard by id, as multi-tenant zoekt does
-		p = ShardName(dir, fmt.Sprintf("%s_id%d", r.Name, r.ID), index.IndexFormatVersion, 0)
+		for n := 0; ; n++ {
+			p = ShardName(dir, fmt.Sprintf("%s_id%d_t%d_%d", r.Name, r.ID, r.TenantID, n), index.IndexFormatVersion, 0)
+			if _, err := os.Stat(p); err != nil {
+				break
+			}
+		}
 	}
 	return p, WriteBuilder(b, p)
 }
